@@ -25,7 +25,7 @@ def prop(pid, theorems, monitors, quick, thorough, **kw):
     P[pid] = dict(theorems=theorems, monitors=monitors, plan=dict(quick=quick, thorough=thorough), **kw)
 
 prop("C01",
-     ["C01_mutex", "C01_try_fails_while_held", "C01_failed_try_reports_none", "C01_wait_enqueues_while_held", "C01_waiter_blocked_while_held", "C01_witness"],
+     ["C01_mutex", "C01_mutex_fine_grained", "C01_try_fails_while_held", "C01_failed_try_reports_none", "C01_wait_enqueues_while_held", "C01_waiter_blocked_while_held", "C01_witness"],
      ["C01."],
      [fam("nolimit","H",1500), fam("nolimit","L",1500), fam("pool","P",1000), fam("dfs-lock2","H",4000), fam("dfs-cancel","H",4000),
       fam("evict","L",800,"monitor"), fam("stream","H",800,"monitor"), fam("expiry","L",800,"monitor"), fam("fine-nolimit","H",1500), fam("fine-nolimit","L",1500), fam("wide","H",600)],
